@@ -208,8 +208,8 @@ func (f *Frame) initElems(ref string, elem types.Type) {
 // frameObl: a write to (ref,key) must target memory allocated by this activation or memory listed in modifies.
 func (f *Frame) frameObl(ref, key, idx, why, pos string) {
 	s := f.s
-	if s.freshRefs[ref] {
-		return // allocated by this activation
+	if s.freshRefs[ref] || s.ownedKey(key) {
+		return // allocated by this activation, or private mutable state of the component (owns clause)
 	}
 	goal := app(">=", ref, s.alloc0)
 	for mk, locs := range s.modKeys {
@@ -234,4 +234,19 @@ func zeroArray(srt, zero string) string {
 		return "((as const " + arrSort("Int", srt) + ") " + zero + ")"
 	}
 	return "zero_arr_" + srt
+}
+
+// ownedKey: the heap key belongs to a type listed in the contract's owns clause.
+func (s *Session) ownedKey(key string) bool {
+	for _, t := range s.C.Owns {
+		for _, pre := range []string{"f:", "e:", "c:"} {
+			if key == pre+t || strings.HasPrefix(key, pre+t+".") {
+				return true
+			}
+		}
+		if strings.HasPrefix(key, "m") && strings.Contains(key, t) {
+			return true
+		}
+	}
+	return false
 }
